@@ -71,6 +71,13 @@ def run(F, rep, tier):
     irp_def_use(F, rep, T)
     irp_order(F, rep, T)
     irp_late_read(F, rep, T)
+    guarded_arms_lower_alike(F, rep, T)
+    lowers_only_what_was_written(F, rep)
+    # an early `ret` / `break` can be followed by further statements of its block: the emitter wraps it (`do return x end`) -
+    # a bare Lua `return` must be the last statement of its block (shared with C06)
+    import core as _core
+    import c06 as _c06
+    _core.borrow(rep, lambda F_, r_: _c06.final(F_, r_, T), lambda o: o["rule"] == "IRP-final", F)
     irp_bracket(F, rep, T)
     irp_shortcircuit(F, rep, T)
     visit_lowering(F, rep, T)
@@ -436,6 +443,73 @@ def irp_order(F, rep, T):
                "IR::%s is written where it is *used* for some instructions (%s): a call happens, and a variable is read, at the point "
                "where the text ends up - behind every statement emitted in between (`(10 + c.tick()) * 2 + c.peek() * 1` calls "
                "peek() first)" % (name, "the arm guarded by `%s`" % pp(some[0][1])[:80] if some else "its arm routes it through define()"))
+
+
+def guarded_arms_lower_alike(F, rep, T, rule="IRP-guarded"):
+    """A guarded arm of the lowering is a special case of a construct for some programs (`ret f(..)` inside f, `not (a < b)`,
+    an `if` with an empty else).  The general arm is what the other rules examine; a special case has to lower to the same
+    template - the same children evaluated in the same order, the same instructions on their results - or it is a second
+    meaning for the same syntax."""
+    def shape(items):
+        out = []
+        for it in items or []:
+            if it[0] == "op":
+                out.append(("op", it[1], tuple(map(str, it[2]))))
+            elif it[0] == "code":
+                out.append(("code", it[1], it[2]))
+            elif it[0] in ("rep", "alt"):
+                out.append((it[0], str(it[1]) if it[0] == "rep" else "", tuple(shape(x) if isinstance(x, list) else str(x) for x in it[2]) if it[0] == "rep" else
+                            tuple(tuple(shape(a_)) for a_ in it[1])))
+            else:
+                out.append((it[0],))
+        return out
+    n = 0
+    for table, what in ((T.stmt, "statement"), (T.expr, "expression")):
+        general = {}
+        for a in table:
+            if not a["arm"].get("guard"):
+                general.setdefault(a["label"], a)
+        for a in table:
+            if not a["arm"].get("guard"):
+                continue
+            n += 1
+            g = general.get(a["label"]) or general.get(a["label"].split("/")[0])
+            same = g is not None and shape(a["items"]) == shape(g["items"]) and str(a.get("result")) == str(g.get("result"))
+            ops = [it[1] for it in (a["items"] or []) if it[0] == "op"]
+            rep.ob(rule, "%s|%s|guarded-arm" % (what, a["label"]), same,
+                   "the guarded arm for %s lowers like the general one" % a["label"] if same else
+                   "the lowering has an arm of its own for some `%s` %ss (guard `%s`) that does not lower like the general arm (it emits "
+                   "%s): for those programs the construct means something else - e.g. `ret f(..)` inside f turned into assignments to "
+                   "f's own parameters and a jump shares the parameters between activations, and closures that captured them see the "
+                   "new values" % (a["label"], what, pp(a["arm"]["guard"])[:70], ops or "nothing"), line_of(a["arm"]))
+    rep.ob(rule, "census", True, "%d guarded arms in the lowering" % n, sites=n)
+
+
+def lowers_only_what_was_written(F, rep, rule="IRP-synth"):
+    """The lowering translates the nodes the checker has seen.  A node that the lowering builds itself and then lowers
+    (`not (a < b)` rewritten to `a >= b`, `x - x` to `0` ..) is a program nobody checked, with the meaning of the rewrite rule -
+    which has to hold for every value (NaN: `not (nan < 1.0)` is true, `nan >= 1.0` is false)."""
+    IRG = "sylt_compiler::intermediate::IRCodeGen::"
+    fold = {IRG + m for m in ("expression", "statement", "definition", "expression_block")}
+    NODE = ("sylt_compiler::name_resolution::Expression", "sylt_compiler::name_resolution::Statement")
+    n = 0
+    bad = []
+    for fn in F.fns_in(IRG):
+        for c in nodes(fn_body(fn), "MethodCall"):
+            if callee(c) not in fold:
+                continue
+            n += 1
+            for a in c["args"]:
+                for x in nodes(a):
+                    if x.get("k") in ("Struct", "Call") and (norm_path(x.get("path") or callee(x) or "")).startswith(NODE) and \
+                            (x.get("k") == "Struct" or x.get("ctor")):
+                        bad.append((fn, c, x))
+    rep.ob(rule, "lowering-visits-only-given-nodes", not bad,
+           "none of the %d recursive lowering calls is handed a node built on the spot" % n if not bad else
+           "%s lowers a node it has built itself (`%s`): the rewritten program was never type-checked and means what the rewrite "
+           "rule means - `not (x >= 0.0)` rewritten to `x < 0.0` answers false for NaN where the program says true" % (
+               last(bad[0][0]["_path"], 2), pp(bad[0][2])[:60]), line_of(bad[0][1]) if bad else None)
+    rep.floor(rule, "recursive lowering calls", n, 20)
 
 
 def irp_late_read(F, rep, T, rule="IRP-order"):
